@@ -40,10 +40,10 @@ CHECKS = {
    text="Proof: every_call_terminates (the driver loop terminates from every invariant state for every RunUntil/Stop/pacing/debt/fault position), finish_marking_some_iff (Some exactly when not Sweeping), finish_cycle_ends_sleeping, cycle_never_rewakes (nothing follows the Sweep->Sleep switch in one cycle_debt/finish_cycle call), asserts unreachable for every history; micro-step phase order; sweep only from fully marked; mark_debt/finish_marking are no-ops from Marked and from Sweeping; start_sweeping ends Sweeping; callbacks keep the phase. Tie: T1 self-driven (the model computes debt itself; step logs compared); protocol automaton monitor.",
    ref="DESIGN §6 C08"),
  "C09": dict(level="proof", tech="Lean 4 over exact rationals: counting invariant Acc over all histories, rho-bound, sleep, stop-the-world + self-driven correspondence + debt monitors",
-   text="Proof: collect_debt_zero, cycle_debt_zero_or_asleep, mark_debt_zero_or_marked (every debt-driven call returns with zero debt or at its stopping phase, from every state, any pacing/debt/fault; mark_debt called while Sweeping does nothing at all and may return with debt — the documented `Stop::FullyMarked <= Stop::AtSweep` behaviour, third disjunct of the theorem); `acc_run` (counting invariant: the credit counters are bounded by colour counts in every reachable state) => credits_bounded, rho_bound / rho_bound_quotient (a cycle that woke in debt with H allocations is unfinished after cycle_debt only if fewer than rho*H/(1-rho) allocations were made since — for any rho-pacing, provided the arena is non-empty), cycles_complete; sleep_schedule (wakeup = max(min_sleep, sleep_factor x survivors)), sleep_honoured, stays_asleep (asleep with no carried debt: debt-driven calls are no-ops and debt reads 0 until allocations exceed the threshold, positive after). Stop-the-world: `stop_the_world` / `stop_the_world_any` (with all work factors zero, collect_debt / cycle_debt called with positive debt return only Sleeping — for every fault position) and `never_parked`; on the pinned tree this clause failed in one corner (defect D5, shown by the check with replay corpus/C09-stw-empty-arena.ops, repaired by /repo commit 73a575a). f64 rounding is modelled by exact rationals. Tie: T1/sd exact counter and debt correspondence on dyadic pacing; monitors (zero debt, no progress asleep, rho-bound, a collection call never increases debt).",
+   text="Proof: collect_debt_zero, cycle_debt_zero_or_asleep, mark_debt_zero_or_marked (every debt-driven call returns with zero debt or at its stopping phase, from every state, any pacing/debt/fault; mark_debt called while Sweeping does nothing at all and may return with debt — the documented `Stop::FullyMarked <= Stop::AtSweep` behaviour, third disjunct of the theorem); `acc_run` (counting invariant: the credit counters are bounded by colour counts in every reachable state) => credits_bounded, rho_bound_run (history level: H and A' are read off the run — H = total_gc_count in the sleeping state a debt-driven call wakes from, A' = the accepted alloc ops since, any interleaving of mutator ops and collection calls that neither changes the pacing, nor removes artificial debt, nor completes the cycle) / rho_bound / rho_bound_quotient (a cycle that woke in debt with H allocations is unfinished after cycle_debt only if fewer than rho*H/(1-rho) allocations were made since — for any rho-pacing, provided the arena is non-empty), cycles_complete; sleep_schedule (wakeup = max(min_sleep, sleep_factor x survivors)), sleep_honoured, stays_asleep (asleep with no carried debt: debt-driven calls are no-ops and debt reads 0 until allocations exceed the threshold, positive after). Stop-the-world: `stop_the_world` / `stop_the_world_any` (with all work factors zero, collect_debt / cycle_debt called with positive debt return only Sleeping — for every fault position) and `never_parked`; on the pinned tree this clause failed in one corner (defect D5, shown by the check with replay corpus/C09-stw-empty-arena.ops, repaired by /repo commit 73a575a). `pinned_stw_witness` keeps defect D5 recognisable (the pre-repair loop of Model/Legacy.lean returns Sweeping on the corner). C09s (translator): `pacing_default_matches_source`, `pacing_stw_matches_source`, `default_impl_is_default`, `metrics_new_matches_source` — the model's Pacing::DEFAULT / STOP_THE_WORLD / Metrics::new are the source's, regenerated from src/metrics.rs on every run. f64 rounding is modelled by exact rationals; decimal (non-dyadic) pacing incl. Pacing::DEFAULT is compared tolerantly (mode odt). Tie: T1/sd exact counter and debt correspondence on dyadic pacing; monitors (zero debt, no progress asleep, rho-bound, a collection call never increases debt).",
    ref="DESIGN §6 C09, §7"),
  "C10": dict(level="proof", tech="Lean 4 (debt algebra, count exact over all histories, monotonicity per op) + self-driven correspondence in debug and release",
-   text="One clause is read, not proved literally: forward_barrier / forward_barrier_weak / resurrect DO lower the debt (by at most mark_factor per newly marked object, theorem debt_forward_work) — the literal 'never decreased by write barriers' is false for these three on the unchanged tree and is recorded as a known finding (forward-like-barrier-pays-mark-credit); 'finite' is not addressed (exact rationals; non-finite f64 inputs are outside every quantifier). Proof: debt non-negative, zero for an empty arena, adjust exact; count_exact / count_zero_after_drop (total_gc_count = allocations made and not yet released, in every history); no counter underflow is a component of Inv (inv_run); debt_never_decreased (no mutator operation other than the knobs and the forward-like barriers lowers allocation_debt, in ANY state, given trace_factor >= 0), plain_metrics, plain_ops, debt_forward_work (forward barriers / resurrect lower it by at most mark_factor per newly marked object: marking work performed by the barrier, DESIGN 8). Tie: exact comparison of every counter and of the debt (as exact rationals) after every op, in debug and release builds of the harness.",
+   text="One clause is read, not proved literally: forward_barrier / forward_barrier_weak / resurrect DO lower the debt (by at most mark_factor per newly marked object, theorem debt_forward_work) — the literal 'never decreased by write barriers' is false for these three on the unchanged tree and is recorded as a known finding (forward-like-barrier-pays-mark-credit); 'finite' is not addressed (exact rationals; non-finite f64 inputs are outside every quantifier). Proof: debt non-negative, zero for an empty arena, adjust exact; count_exact / count_zero_after_drop (total_gc_count = allocations made and not yet released, in every history); no counter underflow is a component of Inv (inv_run); debt_never_decreased (no mutator operation other than the knobs and the forward-like barriers lowers allocation_debt, in ANY state, given trace_factor >= 0), plain_metrics, plain_ops, counters_bounded (no credit counter outgrows the arena), pinned_underflow_witness (defect D1 on the pre-repair definition of Model/Legacy.lean), debt_forward_work (forward barriers / resurrect lower it by at most mark_factor per newly marked object: marking work performed by the barrier, DESIGN 8). Tie: exact comparison of every counter and of the debt (as exact rationals) after every op, in debug and release builds of the harness.",
    ref="DESIGN §6 C10, §7 D1"),
  "C11": dict(note=T1 + "; the quantifier lists trace, callback and element-constructor panics — destructor panics are not covered (DESIGN 8)", level="proof", tech="Lean 4: fault steps are ops of inv_run + fault-injecting correspondence",
    text="Proof: trace faults (k-th trace call, after j slots, object or root) and callback panics are ordinary ops, so inv_run quantifies over every fault position in every schedule incl. repeated faults; mark_one_fault, root_fault_keeps_flag. Failed constructors / builders are C04 / C18. Tie: T1/od with a shared fault plan; C01–C05 monitors on the continued history.",
@@ -78,7 +78,7 @@ TT = ("Lean 4.33 kernel; axioms propext, Classical.choice, Quot.sound only; the 
 
 CHECKS.update({
  "C13": dict(level="proof", tech="Lean 4 Write-capability calculus over a DerefWriteTable regenerated from source + rustc probes", engine="tables",
-   text="Partial (rustc trusted): `covered` — for every table satisfying Table.ok every derivable Write capability / unlocked store is pointer-free or has all its holders barriered (so every accepted program's stores are guarded stores of the collector model, to which C01 applies); `table_ok` by `decide` on the table regenerated from /repo each run (DerefWrite receivers exclusive or 'static; every IndexWrite impl's index type closed: concrete, upstream-proved, or delegating to a closed receiver — `unsound_witness_client_index`, `mutant_witness`; marker traits unsafe; raw unlock sites barriered); `cells_static`; `unsound_witnesses`. 170+ probes (one per Write constructor / DerefWrite / IndexWrite / Unlock impl / field! misuse / Cell holding a Gc) compiled with rustc, accepted ones run. The pinned tree failed table_ok for &T, Rc<T>, Arc<T> (defects D2a/D2b, fixed).",
+   text="Partial (rustc trusted): `covered` — for every table satisfying Table.ok every derivable Write capability / unlocked store is pointer-free or has all its holders barriered (so every accepted program's stores are guarded stores of the collector model, to which C01 applies); `table_ok` by `decide` on the table regenerated from /repo each run (DerefWrite receivers exclusive or 'static; every IndexWrite impl's index type closed: concrete, upstream-proved, or delegating to a closed receiver — `unsound_witness_client_index`, `mutant_witness`; marker traits unsafe; raw unlock sites barriered); `cells_static`; `unsound_witnesses`; bridge to the collector model: `covered_is_collector_cover` / `derived_store_is_guarded_store` (every store derivable in the calculus under the callback's issued barriers passes the collector model's cover guard and is an accepted `Op.store .raw` preserving Inv). 170+ probes (one per Write constructor / DerefWrite / IndexWrite / Unlock impl / field! misuse / Cell holding a Gc) compiled with rustc, accepted ones run. The pinned tree failed table_ok for &T, Rc<T>, Arc<T> (defects D2a/D2b, fixed).",
    ref="DESIGN §6 C13, §7", note=TT),
  "C16": dict(level="proof", tech="Lean 4 structural induction over type shapes for every complete CollectTable + recording-tracer differential", engine="tables+collect",
    text="Partial in its tie (the CollectTable comes from a syn translator whose classification of std container shapes is trusted; rustc trusted): Proof: `exact` — for every complete table, every type shape and well-typed value, the provided trace reports exactly the contained pointers (strong as strong, weak as weak) in every parameter / element position and size, and NEEDS_TRACE = false implies no pointers; `table_complete` by `decide +kernel` on the 77-entry table regenerated from the macro-expanded crate each run; `needs_trace_mono`. Tie 2: harness_collect builds every provided container with distinct pointers in every position x size and records what Trace::trace reports (1029 cases quick, all features; per-feature builds in thorough), plus end-to-end survival runs.",
